@@ -3,7 +3,7 @@ PY ?= /venv/bin/python
 JOBS ?= 12
 COQTIMEOUT ?= 1500
 
-.PHONY: setup gen coq coq-model extract model clean
+.PHONY: setup gen coq coq-model extract model clean coqchk
 
 # the model (what the correspondence runs) must build; property files that no longer check are reported
 # by the checks themselves (broken obligation), so the full build keeps going and does not fail the setup
@@ -35,3 +35,7 @@ model: extract
 clean:
 	rm -rf build
 	cd coq && (test -f Makefile.coq && $(MAKE) -f Makefile.coq clean || true) && rm -f Makefile.coq Makefile.coq.conf .Makefile.coq.d
+
+# independent checker over every property file (about one minute, 3 GB): prints the axioms the development relies on
+coqchk: coq
+	cd coq && timeout 3000 coqchk -o -Q theories CCT $(patsubst coq/theories/props/%.v,CCT.props.%,$(wildcard coq/theories/props/C*.v)) | tail -15
